@@ -613,6 +613,63 @@ func (g *Engine) registerIntrinsics() {
 	I["(*math/big.Int).String"] = func(e *Exec, fn *ssa.Function, a []Value) Value { return e.freshStr("bigstr", 8) }
 
 	// ------------------------------------------------------------ bytes, errors, fmt, log, sync
+	// sort.Slice goes through reflection (Swapper); modelled as an insertion sort driven by the
+	// caller's comparator: for a strict weak order every sorting algorithm yields the same
+	// sequence up to the order of ties, and ties keep their input order here
+	sortSlice := func(e *Exec, fn *ssa.Function, a []Value) Value {
+		ifc, _ := a[0].(Iface)
+		sl, ok := ifc.val.(Slice)
+		if !ok {
+			panic(unsupported("sort.Slice of a non-slice"))
+		}
+		n := int(e.concretize(sl.len, "sort.Slice length"))
+		if n < 2 {
+			return nil
+		}
+		off := int(e.concretize(sl.off, "sort.Slice offset"))
+		if _, isBytes := e.load(sl.base).(BArr); isBytes {
+			panic(unsupported("sort.Slice of a byte slice"))
+		}
+		for i := 1; i < n; i++ {
+			for j := i; j > 0; j-- {
+				r, _ := e.callValue(a[1], []Value{e.tb.BVu(uint64(j), 64), e.tb.BVu(uint64(j-1), 64)}, nil).(*Term)
+				if r == nil || !e.branch(r) {
+					break
+				}
+				pj, pk := sl.base.ext(PE{i: off + j}), sl.base.ext(PE{i: off + j - 1})
+				vj, vk := e.load(pj), e.load(pk)
+				e.store(pj, vk)
+				e.store(pk, vj)
+			}
+		}
+		return nil
+	}
+	// bytes.Compare: lexicographic order as one term (the body is assembly)
+	I["bytes.Compare"] = func(e *Exec, fn *ssa.Function, a []Value) Value {
+		tb := e.tb
+		aa, ao, al, am, ok1 := e.bytesOf(a[0])
+		ba, bo, bl, bm, ok2 := e.bytesOf(a[1])
+		if !ok1 || !ok2 {
+			panic(unsupported("bytes.Compare on non-byte slices"))
+		}
+		max := am
+		if bm < max {
+			max = bm
+		}
+		minus, zero, one := tb.BVi(-1, 64), tb.BVu(0, 64), tb.BVu(1, 64)
+		res := tb.Ite(tb.Cmp(OpUlt, al, bl), minus, tb.Ite(tb.Cmp(OpUlt, bl, al), one, zero))
+		lenCmp := res
+		for i := max - 1; i >= 0; i-- {
+			ix := tb.BVu(uint64(i), 64)
+			x := tb.Select(aa, tb.Bin(OpAdd, ao, ix))
+			y := tb.Select(ba, tb.Bin(OpAdd, bo, ix))
+			inside := tb.BAnd(tb.Cmp(OpUlt, ix, al), tb.Cmp(OpUlt, ix, bl))
+			res = tb.Ite(inside, tb.Ite(tb.Eq(x, y), res, tb.Ite(tb.Cmp(OpUlt, x, y), minus, one)), lenCmp)
+		}
+		return res
+	}
+	I["sort.Slice"] = sortSlice
+	I["sort.SliceStable"] = sortSlice
 	I["bytes.Equal"] = func(e *Exec, fn *ssa.Function, a []Value) Value { return e.bytesEq(a[0], a[1]) }
 	I["errors.Is"] = func(e *Exec, fn *ssa.Function, a []Value) Value { return e.eqVal(a[0], a[1]) }
 	I["fmt.Errorf"] = func(e *Exec, fn *ssa.Function, a []Value) Value { return e.errorsNew(e.freshStr("fmt.Errorf", 8)) }
